@@ -1,6 +1,6 @@
 """C11 — displayed equations follow the documented scheme and keep their punctuation."""
 import re
-import t2t, corr, semrun, gen, impl
+import t2t, corr, semrun, gen, impl, mlmath
 
 OBLIGATIONS = ['Yalafi.C11_rot_length', 'Yalafi.C11_detectParts_tok', 'Yalafi.C11_display_tokens']
 
@@ -189,14 +189,41 @@ def run(ctx):
         ctx.count('outcome_' + r['outcome']); ctx.count('equations', neq)
         fails = judge(c, r)
         if fails:
-            ctx.violation(fails[0], src=c['src'], opts=c['opts'])
+            ctx.violation(fails[0], src=c['src'], opts=c['opts'], case=semrun.pack(c))
         if len(ctx.samples) < 3 and neq:
             ctx.sample({'src': c['src'][:300], 'out': (r.get('txt') or '')[:200]})
     corr.t2t(ctx, cases, results, proj=('outcome', 'toks', 'text', 'diags'), limit=ctx.scale(900, 20000))
+    # several languages in one document: each language rotates its own collection
+    docs = [mlmath.make(ctx.rng, display=True) for _ in range(ctx.scale(60, 1500))]
+    flat, index = [], []
+    for d in docs:
+        full, per = mlmath.cases_of(d)
+        index.append((len(flat), sorted(per)))
+        flat += [full] + [per[l] for l in sorted(per)]
+    res = ctx.pmap(t2t.run_case, flat)
+    for d, (k, ls) in zip(docs, index):
+        ctx.case(flat[k]['src'], nontrivial=True); ctx.count('multi_language_docs')
+        fails = mlmath.judge(d, res[k], {l: res[k + 1 + j] for j, l in enumerate(ls)})
+        if fails:
+            ctx.violation(fails[0], src=flat[k]['src'], opts=flat[k]['opts'], multi=True, thresh=2, mlmath=d)
+    corr.t2t(ctx, flat, res, proj=('outcome', 'toks', 'text'), limit=ctx.scale(300, 5000))
 
 def judge_witness(w):
     return []
 
+def rejudge(c):
+    return judge(c, semrun.run_one(c))
+
 def replay(data):
-    print('C11 oracle needs the AST of the generated document; violation was:', data['violation'].get('what'))
-    return True
+    v = data['violation']
+    f = None
+    if v.get('mlmath'):
+        d = v['mlmath']; d['segs'] = [(l, how, [tuple(i) for i in items]) for (l, how, items) in d['segs']]
+        full, per = mlmath.cases_of(d)
+        f = mlmath.judge(d, t2t.run_case(full), {l: t2t.run_case(per[l]) for l in per})
+    elif v.get('case'):
+        f = rejudge(semrun.unpack(v['case']))
+    if f is None:
+        print('no stored case; violation was:', v.get('what')); return True
+    print('\n'.join(f) if f else 'ok')
+    return not f
